@@ -41,6 +41,8 @@ type FuncSpec struct {
 	Mod     []*Clause // location expressions
 	ModSet  bool      // a modifies clause was given
 	ModAll  bool      // "modifies everything"
+	ModGhosts bool    // "modifies ghosts": any ghost cell (records kept on envelopes handed to user code)
+	ReturnsChan string // accessor returning a channel held in a struct field ("channel.inMsgChan")
 	Pure    bool
 	Derive  string // "wire": ensures clauses are derived mechanically (derive.go)
 	Trusted bool // body is not verified; contract is an assumption
@@ -561,6 +563,10 @@ func (s *Spec) load(path string, prefix string) error {
 				cur.ModAll = true
 				break
 			}
+			if rest == "ghosts" {
+				cur.ModGhosts = true
+				break
+			}
 			parts, err := splitTopCommas(rest)
 			if err != nil {
 				return fmt.Errorf("%s:%d: %v", path, ln, err)
@@ -583,6 +589,8 @@ func (s *Spec) load(path string, prefix string) error {
 			cur.Notes = append(cur.Notes, rest)
 		case "derive":
 			cur.Derive = rest
+		case "returns-chan":
+			cur.ReturnsChan = rest
 		case "oncall":
 			// oncall LABEL : EXPR   (evaluated in the caller's scope right before the call)
 			i := strings.Index(rest, " : ")
